@@ -21,7 +21,7 @@ pub fn run_dir() -> String {
 impl Domain {
     pub fn new(tag: &str) -> Domain {
         let n = CTR.fetch_add(1, Ordering::Relaxed);
-        let pid = std::process::id();
+        let pid = vkit::proc_token();
         let root = format!("{}/{}{}_{}", run_dir(), tag, pid, n);
         std::fs::create_dir_all(&root).unwrap();
         let prefix = format!("v{}{}x{}_", tag, pid, n);
